@@ -215,3 +215,14 @@ func VerifSendKeyUpdate(c *Conn, requestUpdate bool) error {
 	c.out.setTrafficSecret(cipherSuite, QUICEncryptionLevelInitial, cipherSuite.nextTrafficSecret(c.out.trafficSecret))
 	return nil
 }
+
+// VerifWriteRecord writes data as record(s) of the given content type under the
+// connection's current write protection (plaintext before the keys change, encrypted
+// afterwards), bypassing the handshake state machine.  It lets a harness peer send
+// arbitrary post-handshake messages.
+func VerifWriteRecord(c *Conn, typ uint8, data []byte) error {
+	c.out.Lock()
+	defer c.out.Unlock()
+	_, err := c.writeRecordLocked(recordType(typ), data)
+	return err
+}
